@@ -5,52 +5,31 @@ Section Wit.
   Variable quote : bytes -> bytes.
   Variable unquote : bytes -> option bytes.
   Hypothesis QS : QuoteSpec quote unquote.
-  Hypothesis OF : OracleFacts quote unquote.
 
-  Definition T2 : bytes := A ++ EQ :: DQ_X.          (* a="x" *)
-  Definition T3 : bytes := [x61; EQ; x78].           (* a=x *)
+  (* a="x\"y",b="z\"w" with the literals of strconv.Quote: denotes M_XY = {a: x"y, b: z"w} *)
+  Definition T1 : bytes := join_pairs (map (fq quote) M_XY).
+  (* a="x\"y,b=z\"w": denotes {a: x"y,b=z"w}, as does the raw text L_XY = a=x"y,b=z"w *)
+  Definition T3 : bytes := A ++ EQ :: quote V_XY.
 
-  (* same set, two partitions: after a text whose value is the literal "x" (with the quotes) its stored line a="x"
-     is hit by the raw text a="x", which denotes {a: x}; the text a=x denotes the same set and gets a new partition *)
+  (* same set, two partitions (and two sets, one partition): the line of M_XY is printed raw (inner double quotes:
+     the class TestTagLine pins) and is L_XY, a text that denotes ANOTHER set, {a: V_XY}.  The raw-text fast path
+     answers the text L_XY with the partition of M_XY; the text T3 denotes the same set as L_XY and gets a new one *)
   Lemma identity_fastpath :
-    let texts := [A ++ EQ :: quote DQ_X; T2; T3] in
-    to_map unquote T2 = Ok [(A, X)] /\ to_map unquote T3 = Ok [(A, X)] /\
-    snd (run quote unquote t_empty texts) = [GSrc 0 [(A, DQ_X)]; GSrc 0 [(A, DQ_X)]; GSrc 1 [(A, X)]].
+    to_map unquote L_XY = Ok [(A, V_XY)] /\ to_map unquote T3 = Ok [(A, V_XY)] /\
+    snd (run quote unquote t_empty [T1; L_XY; T3]) = [GSrc 0 M_XY; GSrc 0 M_XY; GSrc 1 [(A, V_XY)]].
   Proof.
-    destruct OF as (_ & U1 & _).
-    assert (H2 : to_map unquote T2 = Ok [(A, X)]).
-    { unfold T2, to_map, to_pairs. cbn. fold DQ_X. rewrite U1. reflexivity. }
-    assert (H3 : to_map unquote T3 = Ok [(A, X)]) by reflexivity.
-    split; [exact H2|]. split; [exact H3|].
-    assert (H1 : to_map unquote (A ++ EQ :: quote DQ_X) = Ok [(A, DQ_X)]) by (apply (tag_accept_single quote unquote QS); reflexivity).
-    assert (L1 : line quote [(A, DQ_X)] = T2) by reflexivity.
-    assert (L3 : line quote [(A, X)] = T3) by reflexivity.
-    cbn [run]. unfold get_or_create at 1. cbn [t_map t_empty tbl_find]. rewrite H1. cbn [is_nil]. rewrite L1. cbn [tbl_find t_next app].
-    unfold get_or_create at 1. cbn [t_map]. cbn [tbl_find]. rewrite bytes_eqb_refl. cbn [d_src d_tags].
-    unfold get_or_create at 1. cbn [t_map tbl_find].
-    replace (bytes_eqb T3 T2) with false by reflexivity. rewrite H3. cbn [is_nil]. rewrite L3. cbn [tbl_find].
-    replace (bytes_eqb T3 T2) with false by reflexivity. cbn [t_next snd]. reflexivity.
-  Qed.
-
-  (* two sets, one partition: the empty value and the value of two quote characters are printed as the same line *)
-  Lemma identity_collision :
-    let t1 := A ++ EQ :: quote [] in
-    let t2 := A ++ EQ :: quote [QUOTE; QUOTE] in
-    to_map unquote t1 = Ok [(A, [])] /\ to_map unquote t2 = Ok [(A, [QUOTE; QUOTE])] /\
-    snd (run quote unquote t_empty [t1; t2]) = [GSrc 0 [(A, [])]; GSrc 0 [(A, [])]].
-  Proof.
-    destruct OF as (Q0 & _ & _).
-    assert (H1 : to_map unquote (A ++ EQ :: quote []) = Ok [(A, [])]) by (apply (tag_accept_single quote unquote QS); reflexivity).
-    assert (H2 : to_map unquote (A ++ EQ :: quote [QUOTE; QUOTE]) = Ok [(A, [QUOTE; QUOTE])]) by (apply (tag_accept_single quote unquote QS); reflexivity).
-    split; [exact H1|]. split; [exact H2|].
-    assert (L1 : line quote [(A, [])] = [x61; EQ; QUOTE; QUOTE]).
-    { unfold line, line_ord. cbn. unfold tag_val. cbn. rewrite Q0. reflexivity. }
-    assert (L2 : line quote [(A, [QUOTE; QUOTE])] = [x61; EQ; QUOTE; QUOTE]) by reflexivity.
-    cbn [run]. unfold get_or_create at 1. cbn [t_map t_empty tbl_find]. rewrite H1. cbn [is_nil]. rewrite L1. cbn [tbl_find t_next app].
-    unfold get_or_create at 1. cbn [t_map].
-    destruct (tbl_find _ (A ++ EQ :: quote [QUOTE; QUOTE])) as [d|] eqn:F.
-    - cbn [tbl_find] in F. destruct (bytes_eqb _ _) in F; [|discriminate]. injection F as <-. reflexivity.
-    - rewrite H2. cbn [is_nil]. rewrite L2. cbn [tbl_find]. rewrite bytes_eqb_refl. reflexivity.
+    destruct (tags_unbalanced_other_set quote unquote QS) as (H1 & H2 & H3). fold T1 in H1.
+    assert (H4 : to_map unquote T3 = Ok [(A, V_XY)]) by (apply (tag_accept_single quote unquote QS); reflexivity).
+    split; [exact H3|]. split; [exact H4|].
+    assert (L3 : line quote [(A, V_XY)] = T3) by reflexivity.
+    assert (NE : bytes_eqb T3 L_XY = false).
+    { destruct (quote_facts quote unquote QS V_XY) as (F & _). unfold T3. destruct (quote V_XY) as [|c q]; [discriminate|].
+      cbn in F. apply byte_eqb_eq in F. subst c. reflexivity. }
+    cbn [run]. unfold get_or_create at 1. cbn [t_map t_empty tbl_find]. rewrite H1.
+    change (is_nil M_XY) with false. cbn iota. rewrite H2. cbn [tbl_find t_next app].
+    unfold get_or_create at 1. cbn [t_map tbl_find]. rewrite bytes_eqb_refl. cbn [d_src d_tags].
+    unfold get_or_create at 1. cbn [t_map tbl_find]. rewrite NE, H4. cbn [is_nil]. rewrite L3. cbn [tbl_find]. rewrite NE.
+    cbn [t_next snd]. reflexivity.
   Qed.
 End Wit.
 
